@@ -90,6 +90,21 @@ theorem settled_rests (c : Config α) (e : Env α) (xi : α) (p : Particle α) (
   simp only [ha, diffuse, sink, bury, if_true]
   simp
 
+/-- … over every history: a settled particle whose bed stress stays below the critical stress in every step (or that
+has no critical stress at all) rests at its depth, settled, for the whole history — whatever the other forcing and
+the random draws are -/
+theorem settled_rests_history (c : Config α) (steps : List (Env α × α)) (p : Particle α) (h0 : p.active = 0)
+    (hq : ∀ s ∈ steps, s.1.taucrit = none ∨ ∃ t, s.1.taucrit = some t ∧ shearStress (ustar s.1.ub s.1.vb) < t) :
+    (steps.foldl (fun q s => update c s.1 s.2 q) p).z = p.z ∧
+    (steps.foldl (fun q s => update c s.1 s.2 q) p).active = 0 := by
+  induction steps generalizing p with
+  | nil => exact ⟨rfl, h0⟩
+  | cons s ss ih =>
+    simp only [List.foldl]
+    have h1 := settled_rests c s.1 s.2 p h0 (hq s (List.mem_cons_self))
+    have h2 := ih (update c s.1 s.2 p) h1.2 (fun s' hs' => hq s' (List.mem_cons_of_mem _ hs'))
+    exact ⟨h2.1.trans h1.1, h2.2⟩
+
 theorem never_resuspends_without_taucrit (c : Config α) (e : Env α) (xi : α) (p : Particle α)
     (h0 : p.active = 0) (ht : e.taucrit = none) : (update c e xi p).active = 0 :=
   (settled_rests c e xi p h0 (Or.inl ht)).2
